@@ -18,6 +18,34 @@ CHECKS = {
             "DESIGN.md 6/C14"),
 }
 
+FR_NOTE = ("Trusted: TLC and the CommunityModules operators; the ND-JSON transport; the harness observes HandleMessages only through its two "
+           "channels.  Bounded model checking holds for the toy alphabet up to the stated stream length only; the real CRC-24Q algebra is "
+           "exercised by trace validation only; conformance is sampling over the generator classes listed in the evidence 'rule'.")
+CHECKS.update({
+    "C01": ("model_checking", "TLC model checking of FramerCore.tla (all toy streams) + TLC trace validation of the real HandleMessages/GetMessage against Frame!IsValidFrame (CRC-24Q in TLA+)",
+            "Design level: the implementation-shaped framer model (one transition per GetNextByte call site) satisfies 'typed => valid frame and type = first 12 bits' "
+            "for every stream over a 4-symbol alphabet up to 8 (quick) / 11 (thorough) bytes.  Code level: every message the real code delivers on generated streams and "
+            "every result of single-frame decoding is checked by TLC against the frame definition with the real CRC-24Q written in TLA+; the same pass reports drift of the code from the model.",
+            FR_NOTE, "DESIGN.md 6/C01"),
+    "C02": ("model_checking", "TLC model checking of FramerCore.tla (lossless invariant, all toy streams and EOF positions) + TLC trace validation of real channel runs against the Lossless L0 state machine",
+            "Design level: Concat(out) is a prefix of the input in every reachable state, no empty message, everything delivered at close (inductive strengthening C02ind), for all toy streams. "
+            "Code level: traces of the real HandleMessages over real channels (capacities {0,1,8,n+1} x {0,1,4}, paced producer/consumer) are validated event by event: each message must be the next input bytes, "
+            "close exactly once after everything was delivered, no panic, no hang.",
+            FR_NOTE, "DESIGN.md 6/C02"),
+    "C03": ("model_checking", "TLC model checking (operational FramerCore = declarative Parse on all well-structured toy streams) + TLC trace validation against the declarative segmentation Classify/SegOK",
+            "The declarative segmentation (frame by leader length and CRC, maximal 0xD3-free runs, truncated tail) is written independently of the operational framer; TLC shows them equal on all "
+            "well-structured toy streams, and validates the real code's output on generated well-structured real streams message by message (all payload lengths 1..1023 in the thorough tier).",
+            FR_NOTE, "DESIGN.md 6/C03"),
+    "C12": ("model_checking", "TLC model checking (Parse with corrupt candidates) + TLC trace validation of corrupted-victim streams against Classify/SegOK(allowCorrupt)",
+            "As C03 with checksum-failing candidates allowed: the victim must come out as one non-RTCM message with exactly its bytes and all other segments as in the declarative parse. "
+            "Model: every toy stream (which includes every corruption of every toy frame).  Code: victim corruption families incl. every single bit of short frames and 0xD3 injection.",
+            FR_NOTE, "DESIGN.md 6/C12"),
+    "C20": ("model_checking", "TLA+ classification table (MsgTypes.tla) checked by TLC against a complete enumeration trace of the real classifiers",
+            "Complete enumeration: one recorded event per type in -2..4095 carrying the answers of MSM4/MSM7/MSM, GetConstellation, GetTitleAndComment, GetMessage's timestamp extraction, the four decoders' "
+            "acceptance of a synthetic well-formed frame of that type, what Analyse attempted and whether String() displays it; TLC checks each against the single table and the table's own cross-consistency.",
+            "Trusted: TLC; the synthetic frame is well-formed for every family (so acceptance = err == nil); constellation names compared after normalisation.", "DESIGN.md 6/C20"),
+})
+
 NOT_YET = {}
 
 
